@@ -370,16 +370,55 @@ class Models:
             deref(a[0]).defused = True; return UNIT
 
         # ---- derived / trivial traits on plain data
+        def real_eq(ex, c, a):
+            """`&A == &B` / `ne` forward to the type's own (derived, in-crate) eq when the MIR has it"""
+            m = re.match(r"^<&*(.*) as PartialEq(<.*>)?>::(eq|ne)$", c)
+            if m:
+                inner = "<%s as PartialEq>::eq" % m.group(1)
+                if inner != c:
+                    f = ex.prog.resolve(inner)
+                    if f is not None and f.kind == "fn":
+                        x, y = a[0], a[1]
+                        while isinstance(x, Ref) and isinstance(x.get(), Ref):
+                            x = x.get()
+                        while isinstance(y, Ref) and isinstance(y.get(), Ref):
+                            y = y.get()
+                        if not isinstance(x, Ref):
+                            x = Ref([x], 0)
+                        if not isinstance(y, Ref):
+                            y = Ref([y], 0)
+                        return ex.run(f, [x, y])
+            return None
+
         @R(r"^<.* as PartialEq>::eq$|^<.* as PartialEq<.*>>::eq$")
         def _eq(ex, c, a):
+            r = real_eq(ex, c, a)
+            if r is not None:
+                return r
             return struct_eq(ex, deref(a[0]), deref(a[1]))
 
         @R(r"^<.* as PartialEq>::ne$|^<.* as PartialEq<.*>>::ne$")
         def _ne(ex, c, a):
-            r = struct_eq(ex, deref(a[0]), deref(a[1]))
+            r = real_eq(ex, c, a)
+            if r is None:
+                r = struct_eq(ex, deref(a[0]), deref(a[1]))
             if isinstance(r, SB):
                 return SB(z3.Not(r.e))
             return not r
+
+        @R(r"^std::cmp::(max|min)::<[ui]\d+>$|^std::cmp::(max|min)::<usize>$")
+        def _maxmin(ex, c, a):
+            x, y = a[0], a[1]
+            ismax = "max" in c
+            if isinstance(x, int) and isinstance(y, int):
+                return max(x, y) if ismax else min(x, y)
+            w = x.w if isinstance(x, SV) else y.w
+            xe = x.e if isinstance(x, SV) else z3.BitVecVal(x, w)
+            ye = y.e if isinstance(y, SV) else z3.BitVecVal(y, w)
+            signed = "<i" in c
+            gt = (xe > ye) if signed else z3.UGT(xe, ye)
+            # std::cmp::max returns the second argument when equal; values are equal then, so either is fine
+            return SV(z3.If(gt, xe, ye) if ismax else z3.If(gt, ye, xe), w, signed)
 
         @R(r"^<.* as Clone>::clone$")
         def _clone(ex, c, a):
